@@ -332,7 +332,7 @@ def parse_tla_value(s, start=0):
     return val()
 
 
-def tlc(module, cfg=None, workers=1, env=None, heap="2g", timeout=1800, extra=None, deque=False, stack=None, cwd=None):
+def tlc(module, cfg=None, workers=1, env=None, heap="2g", timeout=1800, extra=None, deque=False, stack="64m", cwd=None):
     """Run TLC on spec/<module>.tla with <cfg> (default <module>.cfg) in the scratch copy."""
     d = cwd or spec_copy()
     meta = tempfile.mkdtemp(prefix="meta-", dir=scratch())
